@@ -24,6 +24,7 @@ type FilterSpec struct {
 	Discovery      bool     `json:"discovery"`
 	Jwks           string   `json:"jwks"` // "static" (default) | "fetch"
 	IdpID          string   `json:"idp"`  // "" = idp "A"; "B" = a second provider (own endpoints)
+	Override       bool     `json:"override"` // configure through default_oidc_config + oidc_override instead of a plain oidc filter
 }
 
 type CfgSpec struct {
